@@ -24,7 +24,7 @@ CHECKS = {
     "C13": ("exploration",
             "generated header-list search in a wire lab with an exact field-by-field oracle on what the backend received and what the client received",
             "One scenario = 1..3 HTTP/1.1 requests (keep-alive) through one of five plain-HTTP listeners (default; elide/send X-Real-IP; custom correlation header and sticky name; expect_proxy with hand-built PROXY-v2 headers, IPv4/IPv6 sources) from a generated 127.a.b.c source to a plain, a sticky or a header-editing cluster. Heads mix proxy-managed names, cookies incl. the sticky name and case variants, Connection-named and hop-by-hop fields, duplicates, long/empty/obs-text values, chunked bodies with trailers. Oracle byte-exact on both sides: method, target, body; every end-to-end field intact and in order; X-Forwarded-For / Forwarded = client's elements + the real peer; X-Real-IP per listener flags; X-Forwarded-Proto/Port; exactly one request id and one correlation header (a ULID); sticky crumbs removed, others intact; nothing protected arrives through trailers; responses intact plus exactly the documented additions.",
-            "HTTP/1.1 on both sides only: HTTP/2 conversion, TLS, HSTS and direct IPv6 peers are not exercised.",
+            "Sub-check h2paths sends generated header lists, cookies, bodies and trailers across the three conversions HTTP/1.1 -> h2c, HTTP/2 (TLS) -> HTTP/1.1 and HTTP/2 -> h2c (own frame codec, both peers' own HPACK decoders), judged by the same field-by-field oracle plus the HTTP/2 conditions (pseudo-headers once and first, lower-case names, no connection-specific field, TE only trailers, trailers intact, nothing protected through trailers, forbidden fields refused and never forwarded). HSTS, PROXY protocol, sticky clusters and frontend edits only on the HTTP/1.1 path; direct IPv6 peers not exercised. Three HTTP/2 trailer shapes are known findings excluded by construction with strict reproducers.",
             "DESIGN.md §4 C13"),
     "C14": ("exploration",
             "generated SETTINGS / WINDOW_UPDATE schedule search with byte-accounting scripted HTTP/2 peers (own frame codec) on both sides of a live worker; ledger invariants plus completion",
@@ -47,9 +47,9 @@ CHECKS = {
             "Selection is driven through the non-connecting entry points; Random/PowerOfTwo are judged by membership only; back-off windows are driven by the verif hooks (no sleeping); the worker's connect path and metrics gauges are not in the loop.",
             "DESIGN.md §4 C12"),
     "C17": ("exploration",
-            "stateful property-based testing (proptest) of CertificateResolver against a cover model built from the fixture manifest",
+            "stateful property-based testing (proptest) of CertificateResolver against a cover model built from the fixture manifest; generated certificate command histories against a live HTTPS listener judged by real TLS handshakes (rustls client reading the presented leaf) and strict-SNI requests",
             "Generated histories of add / remove / replace (idempotent, failing, unparsable old fingerprint, overriding names and expiry) over a bank of certificates with overlapping exact and wildcard names; after every operation 54 probe names are looked up and the served fingerprint must be loaded, cover the name (exact over wildcard, longest-lived among equals), be the default only when nothing covers it, and agree with names_for_sni and the store. Bounded exploration of the resolver; real TLS handshakes, the replace window under concurrent handshakes and strict SNI binding (421) are wire-lab checks not built yet.",
-            "The resolver's domain_lookup is called the way MutexCertificateResolver::resolve calls it (rustls ClientHello cannot be constructed); certificate names and expiry come from the fixture manifest, not from parsing.",
+            "Sub-check handshake: 1..12 Add / Remove / Replace commands over the real command channel, after each 2..6 handshakes for exact, wildcard, uncovered, case-variant names and without SNI: the presented leaf must be in the model's admissible set, a removed certificate is never presented again, a Failure changes nothing; one HTTP request per connection: with strict SNI binding an authority the presented certificate does not cover (label boundary required) gets 421 and reaches no backend; handshakes racing a ReplaceCertificate complete with the old or the new certificate. In-process tier: domain_lookup is called the way the rustls resolver calls it; names and expiry come from the fixture manifest.",
             "DESIGN.md §4 C17"),
     "C11": ("exploration",
             "stateful property-based testing (proptest) of Channel over a real unix socket pair against a two-queue model with an independent frame encoder/decoder",
@@ -67,14 +67,14 @@ CHECKS = {
             "ENHANCE_YOUR_CALM is only admitted, never required; the serializer round trip and HPACK budgets in-process are not part of this check. Sub-check corpus replays the committed frame corpus (repository seeds) under generated mutations through the byte-level oracle shared with the cargo-fuzz target h2_frames, which the thorough tier runs as a bounded libFuzzer campaign.",
             "DESIGN.md §4 C15"),
     "C16": ("exploration",
-            "stateful property-based testing (proptest) of the worker's SessionManager against a multiset model of live sessions and per-(cluster, IP) slots",
+            "stateful property-based testing (proptest) of the worker's SessionManager against a multiset model of live sessions and per-(cluster, IP) slots; generated storms of client/backend interactions against a live worker whose gauges must return exactly to their baseline (wire lab)",
             "Generated histories of accept / request-through-the-per-IP-gate / close / runtime limit changes / per-cluster overrides on the real SessionManager, called exactly as the mux router and tcp sessions call it; admission verdicts, connection count, accept hysteresis, per-IP verdict == (slots taken >= limit in force) without false refusals, and return to zero after all sessions closed. The live-worker part (gauges, buffers, slab entries, timers, storms above max_connections) is a wire-lab check not built yet.",
-            "Only the SessionManager accounting is covered so far; metrics gauges, buffer pool, slab and timers of a live worker are not.",
+            "Sub-check baseline: storms of 3..25 interactions of 22 kinds (normal exchanges, silent clients, aborts, backend timeouts / refusals / garbage, HTTP/2 idle and resets, abandoned TLS handshakes, TCP sessions, WebSocket upgrades, per-IP limited cluster) on HTTP, HTTPS and TCP listeners; afterwards every gauge QueryMetrics returns (proxy, cluster, backend level) must be back at its baseline value, idle sessions must be reclaimed by the worker's own timeouts, no gauge underflow, probes served. Not covered: storms above max_connections, a small buffer pool, Backend.active_connections (not exposed). One known finding (WebSocket upgrade leaks backend gauges) is tolerated by construction and played by a strict reproducer.",
             "DESIGN.md §4 C16 (a)"),
     "C10": ("exploration",
-            "property-based round-trip testing (proptest) of the SCM_RIGHTS listener hand-off codec with fd-identity and fd-leak oracles",
+            "property-based round-trip testing (proptest) of the SCM_RIGHTS listener hand-off codec with fd-identity and fd-leak oracles; generated soft-stop / hand-over scenarios against a live worker with requests in flight (wire lab)",
             "Generated listener sets (0..200 entries, four kinds, IPv4/IPv6 addresses of every textual length, real bound sockets and dups, blocking and non-blocking) are sent with send_listeners over a UnixStream pair and received with receive_listeners: same lists, same order, every received descriptor is the same open file (fstat) bound to its address; sets above the limit give a clean error; a single-threaded sub-check counts process descriptors before/after. The hand-over under traffic (soft stop, successor worker) is the wire-lab part and is not built yet.",
-            "Only the fd hand-off codec is covered so far; master-side fork/exec orchestration and the soft-stop behaviour under traffic are not exercised.",
+            "Sub-check softstop: a fresh worker with 1..5 listeners and 1..6 requests in generated phases (body partly sent, backend waiting, response in progress, Expect: 100-continue before the interim response, idle keep-alive, client stalled under back-pressure) receives SoftStop alone or ReturnListenSockets + SoftStop: every in-flight request completes byte-exact, the final OK comes after the last response was produced, the worker exits, nothing new is served, every handed-over listener comes out of the SCM socket bound to its address. Not covered: master-side fork/exec, a successor worker, HTTP/2 / TLS / TCP sessions in flight.",
             "DESIGN.md §4 C10 (a)"),
     "C18": ("exploration",
             "property-based testing (proptest): PROXY-v2 codec round trip against an independent byte-level reading of the specification; ExpectProxyProtocol driven over an in-memory socket at generated split points",
